@@ -20,7 +20,7 @@ import ast
 from typing import Any, Dict, List, Optional, Tuple
 
 from ..cfg import cfg_of
-from ..flow import Sym, fpaths, attr_effects
+from ..flow import Sym, fpaths, attr_effects, allfacts
 from ..model import FuncInfo, attr_chain, norm, walk_no_nested
 from ..report import Checker
 from .common import idle_predicate_check
@@ -132,7 +132,7 @@ def run(ch: Checker) -> None:
         if p.exit_kind != 'return':
             continue
         sym = Sym(p)
-        fd = dict(p.facts())
+        fd = allfacts(p)
         last = p.stmts()[-1] if p.stmts() else None
         rv = sym.value(last[1].value, last[0]) if last is not None and isinstance(last[1], ast.Return) and last[1].value is not None else None
         returns_true = isinstance(rv, ast.Constant) and rv.value is True
@@ -164,12 +164,12 @@ def run(ch: Checker) -> None:
         ch.paths += 1
         if p.exit_kind != 'return':
             continue
-        facts_all = dict(p.facts())
+        facts_all = allfacts(p)
         wrote_w = False
         for idx, st in p.stmts():
             if isinstance(st, (ast.Assign, ast.AugAssign)):
                 val = norm(st.value)
-                facts = dict(p.facts(idx))
+                facts = allfacts(p, idx)
                 if 'EVENT_READ' in val:
                     n_r += 1
                     if facts.get('self.must_flush_before_shutdown is False') is not True:
@@ -237,7 +237,7 @@ def run(ch: Checker) -> None:
         ch.paths += 1
         if p.exit_kind != 'return':
             continue
-        facts = dict(p.facts())
+        facts = allfacts(p)
         if facts.get('self.selector') is True and facts.get(HASBUF) is True:
             n3 += 1
             order = []
